@@ -215,11 +215,16 @@ def run_codec(prop, tier, seed, gen=None):
         r["error"] = "harness failed: " + out[-1500:]
         return r
     t0 = time.time()
-    with open(os.path.join(d, "ops.txt"), "rb") as fi, open(os.path.join(d, "lean.out"), "wb") as fo:
+    with open(os.path.join(d, "ops.txt"), "rb") as fi, open(os.path.join(d, "lean.raw"), "wb") as fo:
         p = subprocess.run([os.path.join(LEAN, ".lake", "build", "bin", "oapdriver")], stdin=fi, stdout=fo, stderr=subprocess.PIPE, timeout=3000)
     r["driver_s"] = round(time.time() - t0, 1)
     if p.returncode != 0:
         r["error"] = "model driver crashed: " + p.stderr.decode(errors="replace")[-800:]
+        return r
+    # the comparator's canonicalisation: raw metadata pairs -> lower-cased map, with the real strings.ToLower
+    rc, out = sh([os.path.join(BIN, "harness"), "canon", os.path.join(d, "lean.raw"), os.path.join(d, "lean.out")], env=env, timeout=3000)
+    if rc != 0:
+        r["error"] = "canonicalisation failed: " + out[-500:]
         return r
     ops = open(os.path.join(d, "ops.txt"), encoding="utf-8", errors="replace").read().splitlines()
     go = open(os.path.join(d, "go.out"), encoding="utf-8", errors="replace").read().splitlines()
